@@ -290,6 +290,14 @@ func runCheck(id, tier string, seed int, propose, verbose bool) int {
 		os.MkdirAll(filepath.Join(VerifDir, "ledger"), 0o755)
 		os.WriteFile(filepath.Join(VerifDir, "ledger", id+".json"), b, 0o644)
 		fmt.Printf("ledger proposed: %d obligations\n", len(led))
+		// and how each local of the functions under contract is defined (rename.go)
+		rec := append([]string(nil), funcs...)
+		for n := range P.Contracts {
+			if _, ok := P.Funcs[n]; ok {
+				rec = append(rec, n)
+			}
+		}
+		RecordNames(P, rec)
 	}
 
 	isKnown := func(obl string) (string, bool) {
